@@ -63,7 +63,8 @@ static void vf_cipher_init(sslCipherSpec_t *c)
     VF_HAVOC(*c, sslCipherSpec_t);
     c->ident = vf_u16();
     c->type = vf_u16();
-    c->flags = vf_u32();
+    /* RI: no entry of the cipher table sets CRYPTO_FLAGS_CCM8 (tag is 16 bytes) */
+    c->flags = vf_u32() & ~(uint32_t) CRYPTO_FLAGS_CCM8;
     c->macSize = vf_u8();
     c->keySize = vf_u8();
     c->ivSize = vf_u8();
